@@ -1,6 +1,6 @@
-use std::sync::Arc;
 #[cfg(feature = "verif")]
 use crate::verif_locks::RwLock;
+use std::sync::Arc;
 #[cfg(not(feature = "verif"))]
 use tokio::sync::RwLock;
 
